@@ -567,7 +567,6 @@ func vC09Scenario(name string, seed uint64) string {
 		for i := range vals {
 			vals[i] = structpb.NewNumberValue(float64(i))
 		}
-		big, _ := proto.Marshal(&structpb.ListValue{Values: vals})
 		copies := 3 + r.Intn(3)
 		go func() {
 			for {
@@ -579,6 +578,13 @@ func vC09Scenario(name string, seed uint64) string {
 				if proto.Unmarshal(b, m) != nil || m.GetRequest() == nil {
 					continue
 				}
+				// the reply names the request it answers: its first number is the number in the request's token
+				in := &message.Response{}
+				_ = proto.Unmarshal(m.GetRequest().GetPayload(), in)
+				var nr int
+				fmt.Sscanf(in.GetCallId(), "dup%d", &nr)
+				vals[0] = structpb.NewNumberValue(float64(1000 + nr))
+				big, _ := proto.Marshal(&structpb.ListValue{Values: vals})
 				f, _ := proto.Marshal(&message.Message{Exchange: &message.Message_Response{Response: &message.Response{CallId: m.GetRequest().GetCallId(), Payload: big}}})
 				for k := 0; k < copies; k++ {
 					if conn.WriteMessage(websocket.BinaryMessage, f) != nil {
@@ -587,7 +593,7 @@ func vC09Scenario(name string, seed uint64) string {
 				}
 			}
 		}()
-		for i := 0; i < 3; i++ {
+		for i := 0; i < 5; i++ {
 			out := &structpb.ListValue{}
 			res := make(chan error, 1)
 			go func() { res <- cc.Invoke(context.Background(), "Echo", vAppMsg(fmt.Sprintf("dup%d", i), nil, ""), out) }()
@@ -595,6 +601,9 @@ func vC09Scenario(name string, seed uint64) string {
 			case err := <-res:
 				if err != nil || len(out.Values) != len(vals) {
 					return fmt.Sprintf("call-answered-several-times-fails/%v/%d", err, len(out.Values))
+				}
+				if got := int(out.Values[0].GetNumberValue()); got != 1000+i {
+					return fmt.Sprintf("call-got-the-surplus-response-of-an-earlier-call/call %d got the reply to call %d", i, got-1000)
 				}
 			case <-time.After(5 * time.Second):
 				return "call-answered-several-times-hangs/" + strings.Join(vParked(), ",")
@@ -806,6 +815,11 @@ func TestVerifC09Child(t *testing.T) {
 // C08: what a closed connection reports, with a state update in flight
 func TestVerifC08Closed(t *testing.T) {
 	vC09Run(t, []string{"state-update-in-flight", "state-while-close-waits-for-a-handler", "undecodable-frame-on-a-ready-connection", "close-after-dial-context-ended-and-connection-lost"}, "closed/", 88)
+}
+
+// C01 / C07: a peer which answers every call several times - each call still gets its own reply
+func TestVerifDupResponses(t *testing.T) {
+	vC09Run(t, []string{"peer-answers-each-call-several-times"}, "dup/", 17)
 }
 
 // C05: a frame which cannot be decoded does not stop the requests which follow it from being answered
